@@ -33,6 +33,9 @@ func (w *World) opTable() []opFn {
 		{"rolling-update", 2, func() bool { return len(w.appsOfKind("dp")) > 0 }, w.opRollingUpdate},
 		{"resync", 3, func() bool { return true }, w.opResync},
 	}
+	if p.Probe != "" {
+		ops = append(ops, opFn{"probe-" + p.Probe, 10, func() bool { return w.wantProbe == "" }, func() { w.wantProbe = p.Probe }})
+	}
 	if p.Finish {
 		ops = append(ops, opFn{"finish-pod", 5, func() bool {
 			return len(w.podsWhere(func(p *PodInfo) bool { return p.Node != "" && p.live() })) > 0
